@@ -170,7 +170,7 @@ class Enum(SerializableField, metaclass=_EnumMeta):
     def __set__(self, instance, value):
         self._validate(value)
         if self._is_enum:
-            if isinstance(value, (str,)):
+            if isinstance(value, (str,)) and not isinstance(value, enum.Enum):
                 value = self._enum_class[value]
         super().__set__(instance, value)
 
